@@ -64,6 +64,7 @@ class Module:
     funcs: Dict[str, FuncInfo] = field(default_factory=dict)
     classes: Dict[str, ast.ClassDef] = field(default_factory=dict)
     consts: Dict[str, ast.expr] = field(default_factory=dict)
+    mutations: Dict[str, List[ast.stmt]] = field(default_factory=dict)  # module-level NAME.update(...) / NAME[k] = v / NAME += ...
     imports: Dict[str, Tuple[str, Optional[str]]] = field(default_factory=dict)
 
     def _index(self) -> None:
@@ -93,9 +94,17 @@ class Module:
             for t in node.targets:
                 if isinstance(t, ast.Name):
                     self.consts[t.id] = node.value
+            for t in node.targets:
+                if isinstance(t, ast.Subscript) and isinstance(t.value, ast.Name):
+                    self.mutations.setdefault(t.value.id, []).append(node)
         elif isinstance(node, ast.AnnAssign):
             if isinstance(node.target, ast.Name) and node.value is not None:
                 self.consts[node.target.id] = node.value
+        elif isinstance(node, ast.AugAssign):
+            if isinstance(node.target, ast.Name):
+                self.mutations.setdefault(node.target.id, []).append(node)
+        elif isinstance(node, ast.Expr) and isinstance(node.value, ast.Call) and isinstance(node.value.func, ast.Attribute) and isinstance(node.value.func.value, ast.Name) and node.value.func.attr in ("update", "append", "extend", "add", "setdefault", "pop", "remove", "clear", "insert", "discard"):
+            self.mutations.setdefault(node.value.func.value.id, []).append(node)
         elif isinstance(node, ast.Import):
             for a in node.names:
                 self.imports[(a.asname or a.name).split(".")[0]] = (a.name, None)
